@@ -45,6 +45,9 @@ static long fetch_and_inc(volatile long& x) {
 static long fetch_and_dec(volatile long& x) {
 	return __sync_fetch_and_sub(&x, 1);
 }
+static long fetch_and_clear(volatile long& x) {
+	return __sync_fetch_and_and(&x, 0);
+}
 #else
 #define WIN32_LEAN_AND_MEAN // exclude APIs such as Cryptography, DDE, RPC, Shell, and Windows Sockets.
 #if !defined(NOMINMAX)
@@ -57,6 +60,9 @@ static long fetch_and_inc(volatile long& x) {
 }
 static long fetch_and_dec(volatile long& x) {
 	return InterlockedDecrement(&x) + 1;
+}
+static long fetch_and_clear(volatile long& x) {
+	return InterlockedExchange(&x, 0);
 }
 #endif
 #if defined(POTASSCO_LIBPOTASSCO_VERIF)
@@ -189,9 +195,7 @@ int Application::blockSignals() {
 void Application::unblockSignals(bool deliverPending) {
 	if (fetch_and_dec(blocked_) == 1) {
 		POTASSCO_VERIF_YIELD(9)
-		int pend = pending_;
-		POTASSCO_VERIF_YIELD(10)
-		pending_ = 0;
+		int pend = static_cast<int>(fetch_and_clear(pending_)); // one atomic step: a signal queued in between is not lost
 		// directly deliver any pending signal to our sig handler
 		if (pend && deliverPending) { processSignal(pend); }
 	}
